@@ -22,6 +22,33 @@ int main(int argc, char** argv) {
       if (e - a != n || memcmp(a, b, n) != 0) { printf("MISMATCH value %llu printed as %.*s\n", (unsigned long long)w, (int)(e - a), a); return 1; }
       checked++;
     }
+  // every value of the leading part: 1..9999 in front of one 8-digit group (9..12 digits) and in front of two (17..20
+  // digits: 1..1844, the last one only up to 2^64 - 1), with all-zero, all-nine and mixed tails
+  {
+    const uint64_t tails8[] = {0ull, 99999999ull, 12345678ull, 10002000ull};
+    for (uint64_t lead = 1; lead <= 9999; lead++)
+      for (uint64_t t : tails8) {
+        uint64_t w = lead * 100000000ull + t;
+        char* e = internal::U64toa(a, w);
+        int n = digits_of(w, b);
+        if (e - a != n || memcmp(a, b, n) != 0) { printf("MISMATCH value %llu printed as %.*s\n", (unsigned long long)w, (int)(e - a), a); return 1; }
+        checked++;
+      }
+    const uint64_t tails16[] = {0ull, 9999999999999999ull, 1234567890123456ull, 1000200030004000ull};
+    for (uint64_t lead = 1; lead <= 1844; lead++)
+      for (uint64_t t : tails16) {
+        if (lead == 1844 && t > 6744073709551615ull) continue;
+        uint64_t w = lead * 10000000000000000ull + t;
+        char* e = internal::U64toa(a, w);
+        int n = digits_of(w, b);
+        if (e - a != n || memcmp(a, b, n) != 0) { printf("MISMATCH value %llu printed as %.*s\n", (unsigned long long)w, (int)(e - a), a); return 1; }
+        checked++;
+        if (w <= 9223372036854775807ull) {
+          char* e2 = internal::I64toa(a, -(int64_t)w);
+          if (a[0] != '-' || e2 - a != n + 1 || memcmp(a + 1, b, n) != 0) { printf("MISMATCH value -%llu printed as %.*s\n", (unsigned long long)w, (int)(e2 - a), a); return 1; }
+        }
+      }
+  }
   printf("ok checked %llu\n", (unsigned long long)checked);
   return 0;
 }
